@@ -22,6 +22,13 @@ sed -e 's#^\t"sync"$#\tsync "verif/engine/sched/vsync"#' \
     $KS > $GEN/keystore.go.new
 cmp -s $GEN/keystore.go.new $GEN/keystore.go 2>/dev/null || mv $GEN/keystore.go.new $GEN/keystore.go
 rm -f $GEN/keystore.go.new
+# race pass: real sync/time/os, only the KDF cost is clamped
+sed -e 's#^\t"golang.org/x/crypto/pbkdf2"$#\tpbkdf2 "verif/engine/sched/vpbkdf2"#' $KS > $GEN/keystore_race.go.new
+cmp -s $GEN/keystore_race.go.new $GEN/keystore_race.go 2>/dev/null || mv $GEN/keystore_race.go.new $GEN/keystore_race.go
+rm -f $GEN/keystore_race.go.new
+cat > $GEN/overlay_race.json <<J
+{"Replace": {"$KS": "$GEN/keystore_race.go", "$SDK/baseapp/state.go": "$GEN/baseapp_state.go"}}
+J
 cat > $GEN/overlay_ks.json <<J
 {"Replace": {"$KS": "$GEN/keystore.go"}}
 J
